@@ -85,18 +85,18 @@ MTearDownEnd(m, l, s) ==
   IF ~w.life[l] THEN m ELSE
   [Mon(m, TearDownEndErr(w, m.p, l), 0) EXCEPT !.p = TearDownEnd(m.p, l, s)]
 MTestSetUp(m, l) ==
-  IF ~w.per[l] THEN m ELSE
-  [Mon(m, TestSetUpErr(w, m.p, l), 0) EXCEPT !.p = TestSetUp(m.p, l)]
+  IF ~w.perUp[l] THEN m ELSE
+  LET r == BrTestSetUp(w, m.p, l) IN [Mon(m, r[1], 0) EXCEPT !.p = r[2]]
 MTestTearDown(m, l) ==
-  IF ~w.per[l] THEN m ELSE
-  [Mon(m, TestTearDownErr(w, m.p, l), 0) EXCEPT
-       !.p = IF m.p.br = <<>> THEN m.p ELSE TestTearDown(m.p, l)]
+  IF ~w.perDown[l] THEN m ELSE
+  LET r == BrTestTearDown(w, m.p, l) IN [Mon(m, r[1], 0) EXCEPT !.p = r[2]]
 MTest(m, tl) ==
   LET m1 == Mon(m, TestStartErr(w, m.p, tl), 0)
-      m2 == Mon(m1, BracketAtTestErr(w, m.p, tl), 0)
-  IN [m2 EXCEPT !.p = TestRuns(m2.p)]
-MIdle(m) == Mon(m, BracketClosedErr(m.p), 0)
-MProcEnd(m) == Mon(Mon(m, ProcEndErr(w, m.p), 0), BracketClosedErr(m.p), 0)
+      r == BrTest(w, m1.p, tl)
+  IN [Mon(m1, r[1], 0) EXCEPT !.p = r[2]]
+MIdle(m) == LET r == BrIdle(w, m.p) IN [Mon(m, r[1], 0) EXCEPT !.p = r[2]]
+MProcEnd(m) == LET r == BrIdle(w, m.p)
+               IN [Mon(Mon(m, ProcEndErr(w, m.p), 0), r[1], 0) EXCEPT !.p = r[2]]
 
 RECURSIVE MFold(_, _, _)
 MFold(Op(_, _), m, s) == IF s = <<>> THEN m ELSE MFold(Op, Op(m, Head(s)), Tail(s))
@@ -106,11 +106,11 @@ Mon0 == [p |-> Proc0, err |-> ""]
 (* ----- initial state --------------------------------------------------------*)
 Init ==
   /\ \E n \in 1..MaxN : \E g \in GraphsOn(n) :
-     \E lf \in Flags(n), pf \in Flags(n) :
+     \E lf \in Flags(n), pf \in Flags(n), pdf \in Flags(n) :
      \E ts \in [LSet(n) -> TestSeqs \cup {<<>>}] :
      \E suF \in SUBSET LSet(n) : \E td \in [LSet(n) -> {"ok", "raise", "notimpl"}] :
        LET x == [layers |-> [i \in 1..n |-> LName(i)], bases |-> NamedBases(g),
-                 life |-> lf, per |-> pf, tests |-> ts, suF |-> suF, td |-> td]
+                 life |-> lf, perUp |-> pf, perDown |-> pdf, tests |-> ts, suF |-> suF, td |-> td]
        IN /\ Faults(x) <= MaxFaults /\ Owners(x) # {}
           /\ w = x
   /\ opt \in [repeat : Repeats, stop : Stops, par : {m = "par" : m \in Modes}]
@@ -239,7 +239,7 @@ RunTest ==
          m2 == IF kind = "skipdeco" THEN m1 ELSE MTest(m1, curLayer)
          m3 == MFold(MTestTearDown, m2, Reverse(bl))
      IN /\ mon' = m3
-        /\ usedDev' = IF unbalanced /\ \E l \in SeqSet(bl) : w.per[l]
+        /\ usedDev' = IF unbalanced /\ \E l \in SeqSet(bl) : w.perUp[l] /\ w.perDown[l]
                       THEN usedDev \cup {"SkipFallbackUnbalanced"} ELSE usedDev
         /\ executed' = executed \cup {<<curLayer, tIdx, iter, proc>>}
         /\ anyBad' = (anyBad \/ kind = "bad")
